@@ -404,9 +404,62 @@ func allSplits(n int) [][]int {
 	return out
 }
 
+// controlReuse: a host hands the same Control to walk after walk and edits its breakpoints in
+// between.  What a walk reports - where it stopped, why, the remainder - is decided by the
+// breakpoints the control has when the walk is made.
+func controlReuse(rec *fw.Rec) {
+	spec := &core.Spec{Name: "chain", Nodes: map[string]*core.Node{
+		"start": {Branches: &core.Branches{Type: "message", Branches: []*core.Branch{{Pattern: map[string]interface{}{"go": "?g"}, Target: "a"}}}},
+		"a":     {Branches: &core.Branches{Type: "bindings", Branches: []*core.Branch{{Target: "b"}}}},
+		"b":     {Branches: &core.Branches{Type: "message", Branches: []*core.Branch{{Pattern: map[string]interface{}{"go": "?h"}, Target: "c"}}}},
+		"c":     {Branches: &core.Branches{Type: "bindings", Branches: []*core.Branch{{Target: "start"}}}}}}
+	if err := spec.Compile(context.Background(), nil, true); err != nil {
+		rec.Inconclusive("control reuse: " + err.Error())
+		return
+	}
+	at := func(n string) core.Breakpoint {
+		return func(_ context.Context, s *core.State) bool { return s.NodeName == n }
+	}
+	msgs := []interface{}{map[string]interface{}{"go": 1.0}, map[string]interface{}{"go": 2.0}, map[string]interface{}{"go": 3.0}}
+	walk := func(c *core.Control) string {
+		w, err := spec.Walk(context.Background(), &core.State{NodeName: "start", Bs: match.Bindings{}}, fw.Deep(msgs).([]interface{}), c, nil)
+		rec.Eval(1)
+		if err != nil || w == nil {
+			return fmt.Sprint("error ", err)
+		}
+		return fmt.Sprintf("%d strides, %v %q, %d remaining", len(w.Strides), w.StoppedBecause, w.BreakpointId, len(w.Remaining))
+	}
+	same := true
+	for _, edit := range []string{"replace-predicate", "swap-id", "same-ids-new-map"} {
+		used := &core.Control{Limit: 20, Breakpoints: map[string]core.Breakpoint{"bp": at("b"), "other": at("nowhere")}}
+		walk(used)
+		var fresh *core.Control
+		switch edit {
+		case "replace-predicate":
+			used.Breakpoints["bp"] = at("c")
+			fresh = &core.Control{Limit: 20, Breakpoints: map[string]core.Breakpoint{"bp": at("c"), "other": at("nowhere")}}
+		case "swap-id":
+			delete(used.Breakpoints, "bp")
+			used.Breakpoints["zz"] = at("a")
+			fresh = &core.Control{Limit: 20, Breakpoints: map[string]core.Breakpoint{"zz": at("a"), "other": at("nowhere")}}
+		default:
+			used.Breakpoints = map[string]core.Breakpoint{"bp": at("nowhere"), "other": at("nowhere")}
+			fresh = &core.Control{Limit: 20, Breakpoints: map[string]core.Breakpoint{"bp": at("nowhere"), "other": at("nowhere")}}
+		}
+		if got, want := walk(used), walk(fresh); got != want {
+			rec.Violation("C05:control-used-before", fmt.Sprintf("a walk with a control that an earlier walk had used (%s since) reports %s; the breakpoints it has now call for %s", edit, got, want), "chain start -go-> a -> b -go-> c -> start, three messages, "+edit)
+			same = false
+		}
+	}
+	if same {
+		rec.Bucket("walks_with_a_control_used_before_and_edited_since")
+	}
+}
+
 func Run(cfg fw.Config, rec *fw.Rec) {
+	controlReuse(rec)
 	rec.Rule = "random specs (1-5 nodes incl. cyclic / non-terminating, failing and bad-return actions, guards, @var and missing targets, all error settings, nodes that have an action and message branching; native and ECMAScript) x start states x sequences of 0-8 messages with unique ids (objects and the scalars false, 0, \"\") x limits {0,1,2,3,5,30,60,100,-1} x breakpoints; plus three-message batches in which one message carries a value that is not JSON (NaN, infinities, 12000-deep nesting, Go ints, functions, channels, structs, byte slices, maps with non-string keys) at every position under limits 1, 2, 3, 100: consumed once and in order, by identity; each Walked is checked as a history; a quarter of the native walks are repeated under a context that ends before the call or when Walk evaluates its breakpoints for the k-th time (k up to the number of strides + 1) and judged by the same rules; every split of sequences of <= 6 messages is compared with the single Walk; non-trivial = walk with >= 2 strides; distinct by canonical (spec,state,messages,limit,breakpoint)"
-	rec.Required = []string{"stop_done", "stop_limited", "stop_breakpoint", "walks_consuming_several", "done_with_dropped_messages", "splits_compared", "ecma_walks", "scalar_messages", "specs_with_action_and_message_branching_node", "batches_with_a_message_that_is_not_json", "walks_under_a_context_that_ends_meanwhile"}
+	rec.Required = []string{"stop_done", "stop_limited", "stop_breakpoint", "walks_consuming_several", "done_with_dropped_messages", "splits_compared", "ecma_walks", "scalar_messages", "specs_with_action_and_message_branching_node", "batches_with_a_message_that_is_not_json", "walks_under_a_context_that_ends_meanwhile", "walks_with_a_control_used_before_and_edited_since"}
 	rec.Assume = []string{"actions and guards are deterministic; guarded branches have at most one candidate", "stride-level agreement relies on ref.Step (see C04)"}
 	oddMessages(rec)
 	n := cfg.Pick(30000, 600000)
